@@ -91,6 +91,7 @@ func (n *HTTPPostNode) UnmarshalJSON(data []byte) error {
 	var raw = &struct {
 		TypeOf
 		*Alias
+		Timeout string `json:"timeout"`
 	}{
 		Alias: (*Alias)(n),
 	}
@@ -100,6 +101,10 @@ func (n *HTTPPostNode) UnmarshalJSON(data []byte) error {
 	}
 	if raw.Type != "httpPost" {
 		return fmt.Errorf("error unmarshaling node %d of type %s as HTTPPostNode", raw.ID, raw.Type)
+	}
+	n.Timeout, err = influxql.ParseDuration(raw.Timeout)
+	if err != nil {
+		return err
 	}
 	n.setID(raw.ID)
 	return nil
